@@ -36,6 +36,9 @@ class ATen:
         self.intval = intval  # Int term when this is a 0-d integer tensor (argmin index, ...)
         self.boolean = boolean
         self.ref = None
+        if z3.is_const(term) and term.decl().kind() == z3.Z3_OP_UNINTERPRETED:
+            from . import numeval
+            numeval.ARR_SHAPES[term.decl().name()] = list(self.shape_l)   # shapes of free array constants (numeric replay)
 
     @property
     def rank(self):
